@@ -192,6 +192,49 @@ fn png_encode(data: &[u8], cols: usize, mut pick: impl FnMut() -> u8) -> Vec<u8>
     out
 }
 
+/// A structural stream (object stream / cross-reference stream) through a chain of 1..3 filters out of FlateDecode, LZWDecode and
+/// ASCII85Decode, a PNG predictor (every row filter) possibly on the innermost Flate / LZW stage, `EarlyChange 0` possibly on an LZW
+/// stage; `Filter` as a name or an array, `DecodeParms` as a dictionary, a one-element array, or an array parallel to the filters
+/// with `null` for the stages that take no parameters (ISO 32000-1 7.3.8.2, Table 5). Returns the encoded bytes; sets the entries.
+fn encode_structural(r: &mut Rng, c: &mut Counters, tag: &str, mut data: Vec<u8>, cols: usize, pad: u8, d: &mut Dictionary) -> Vec<u8> {
+    use crate::props::c09::{lzw_encode, ref_a85_encode, A85Style};
+    let n = *r.pick(&[1usize, 1, 1, 2, 2, 3]);
+    let kinds: Vec<u8> = (0..n).map(|_| *r.pick(&[0u8, 0, 2, 1])).collect();      // 0 Flate, 1 A85, 2 LZW
+    let mut parms: Vec<Option<Dictionary>> = vec![None; n];
+    let last = n - 1;
+    if kinds[last] != 1 && cols > 0 && r.chance(1, 2) {
+        while data.len() % cols != 0 { data.push(pad); }
+        let mode = r.below(6) as u8;
+        let mut types: Vec<u8> = vec![];
+        for _ in 0..(data.len() / cols + 1) { types.push(if mode == 5 { r.below(5) as u8 } else { mode }); }
+        let mut k = 0;
+        data = png_encode(&data, cols, || { let t = types[k % types.len()]; k += 1; t });
+        let mut dp = Dictionary::new(); dp.set("Predictor", Object::Integer(10 + mode as i64)); dp.set("Columns", Object::Integer(cols as i64));
+        parms[last] = Some(dp); hit(c, &format!("{}.predictor{}", tag, 10 + mode));
+    }
+    let mut early = vec![true; n];
+    for i in 0..n { if kinds[i] == 2 && r.chance(1, 3) { early[i] = false; let mut dp = parms[i].take().unwrap_or_default(); dp.set("EarlyChange", Object::Integer(0)); parms[i] = Some(dp); hit(c, &format!("{}.early_change_0", tag)); } }
+    for i in (0..n).rev() {
+        data = match kinds[i] {
+            0 => flate(&data),
+            1 => ref_a85_encode(&data, A85Style { use_z: r.chance(1, 2), wrap: *r.pick(&[0usize, 0, 16, 60]), ws: b'\n', eod: true }),
+            _ => lzw_encode(&data, early[i]),
+        };
+    }
+    let names: Vec<Object> = kinds.iter().map(|k| Object::Name(match k { 0 => b"FlateDecode".to_vec(), 1 => b"ASCII85Decode".to_vec(), _ => b"LZWDecode".to_vec() })).collect();
+    hit(c, &format!("{}.chain_{}", tag, kinds.iter().map(|k| ["Fl", "A85", "LZW"][*k as usize]).collect::<Vec<_>>().join("+")));
+    if n == 1 && r.chance(1, 2) { d.set("Filter", names[0].clone()); } else { d.set("Filter", Object::Array(names)); hit(c, &format!("{}.filter_array", tag)); }
+    let any = parms.iter().any(|p| p.is_some());
+    if n == 1 {
+        if let Some(p) = parms[0].clone() { if r.chance(1, 2) { d.set("DecodeParms", Object::Dictionary(p)); } else { d.set("DecodeParms", Object::Array(vec![Object::Dictionary(p)])); hit(c, &format!("{}.parms_array1", tag)); } }
+    } else if any || r.chance(1, 4) {
+        d.set("DecodeParms", Object::Array(parms.iter().map(|p| match p { Some(p) => Object::Dictionary(p.clone()), None => Object::Null }).collect()));
+        hit(c, &format!("{}.parms_array_with_null", tag));
+        if any && parms.iter().filter(|p| p.is_none()).count() > 0 && kinds.iter().zip(parms.iter()).any(|(k, p)| *k != 1 && p.is_none()) { hit(c, &format!("{}.null_parms_on_flate_or_lzw_next_to_a_dictionary", tag)); }
+    }
+    data
+}
+
 pub struct Written { pub bytes: Vec<u8>, pub startxrefs: Vec<usize>, pub containers: Vec<u32> }
 
 /// write revisions[0] as the base file and each later revision as an appended update
@@ -294,7 +337,10 @@ pub fn write_file_with(r: &mut Rng, c: &mut Counters, style: &Style, version: &s
                 let mut content = index.into_bytes(); content.extend_from_slice(&body);
                 let mut d = Dictionary::new();
                 d.set("Type", Object::Name(b"ObjStm".to_vec())); d.set("N", Object::Integer(chunk.len() as i64)); d.set("First", Object::Integer(first as i64));
-                if style.compress { content = flate(&content); d.set("Filter", Object::Name(b"FlateDecode".to_vec())); hit(c, "objstm.flate"); }
+                if style.compress {
+                    if r.chance(1, 2) { content = flate(&content); d.set("Filter", Object::Name(b"FlateDecode".to_vec())); hit(c, "objstm.flate"); }
+                    else { let cols = 1 + r.usize(8); content = encode_structural(r, c, "objstm", content, cols, b' ', &mut d); }
+                }
                 d.set("Length", Object::Integer(content.len() as i64));
                 entries.insert(cid, (1, (out.len() - base) as u64, 0));
                 out.extend_from_slice(format!("{} 0 obj\n", cid).as_bytes());
@@ -385,7 +431,9 @@ pub fn write_file_with(r: &mut Rng, c: &mut Counters, style: &Style, version: &s
                 trailer.set("W", Object::Array(vec![Object::Integer(w1 as i64), Object::Integer(w2 as i64), Object::Integer(w3 as i64)]));
                 if !(default_index && r.chance(1, 2)) { trailer.set("Index", Object::Array(index)); } else { hit(c, "xrefstm.default_index"); }
                 if let Some(p) = prev_startxref { trailer.set("Prev", Object::Integer(p as i64)); }
-                if style.compress {
+                if style.compress && r.chance(1, 3) {
+                    content = encode_structural(r, c, "xrefstm", content, w1 + w2 + w3, 0, &mut trailer);
+                } else if style.compress {
                     let cols = w1 + w2 + w3;
                     if r.chance(1, 2) {
                         // every PNG row filter; Predictor 10..15 all read the per-row type byte
